@@ -30,6 +30,9 @@ void CDNS::GzipCborOutputWriter::open()
     m_gzip.zalloc = Z_NULL;
     m_gzip.zfree = Z_NULL;
     m_gzip.opaque = Z_NULL;
+    // Input left over from a failed write belongs to the previous output
+    m_gzip.next_in = Z_NULL;
+    m_gzip.avail_in = 0;
     int ret = deflateInit2(&m_gzip, Z_DEFAULT_COMPRESSION, Z_DEFLATED, 31, 8, Z_DEFAULT_STRATEGY);
     if (ret != Z_OK)
         throw CborOutputException("Couldn't initialize GZIP compression");
